@@ -9,7 +9,7 @@
     interval arithmetic (erg does not infer interval types for the fragment: probed), map, refinement predicates. *)
 From Coq Require Import ZArith List Bool Lia.
 From ErgV Require Import CoreErg.Syntax CoreErg.Sem Typing.Types Typing.Check Typing.Eval Typing.Spec Typing.ProofsTypes
-     Typing.ProofsOps Typing.ProofsSound.
+     Typing.ProofsOps Typing.ProofsBasic Typing.ProofsSound.
 Import ListNotations.
 Open Scope Z_scope.
 
